@@ -10,6 +10,7 @@ import (
 	"os"
 	"slices"
 	"sort"
+	"strconv"
 	"strings"
 	"sync"
 
@@ -30,6 +31,11 @@ type runtimePanic struct{ msg string } // Go runtime error in the target program
 type pathEnd struct{ reason string }   // silently end this path (assume false ...)
 type abortHarness struct{ msg string } // unsupported construct: harness inconclusive
 type killThread struct{}
+
+type qcEntry struct {
+	r    Result
+	vals map[int]uint64
+}
 
 type decision struct {
 	alts []int64
@@ -119,6 +125,7 @@ type Interp struct {
 	blobs      map[int]*jsonBlob
 	blobSeq    int
 	varMemo    map[int][]int
+	qcache     map[string]*qcEntry
 	noSlice    bool
 	loopSpecs  map[string]*loopSpec
 	loopPost   map[string]value
@@ -156,6 +163,7 @@ type HarnessRun struct {
 	IfConverted  int
 	AllocCuts    int
 	Sliced       int
+	CacheHits    int
 }
 
 func newHarnessRun(name string) *HarnessRun {
@@ -233,7 +241,57 @@ func (in *Interp) check(extra ...*Term) (Result, map[int]uint64) {
 		as = append(as, in.pc...)
 		as = append(as, extra...)
 	}
+	// query cache: re-executed prefixes ask identical questions (terms are hash-consed)
+	ids := make([]int, len(as))
+	for i, a := range as {
+		ids[i] = a.id
+	}
+	sort.Ints(ids)
+	var kb strings.Builder
+	for _, id := range ids {
+		kb.WriteString(strconv.Itoa(id))
+		kb.WriteByte(',')
+	}
+	key := kb.String()
+	if ce, ok := in.qcache[key]; ok {
+		hit := true
+		if ce.r == Sat {
+			for _, v := range want {
+				if _, ok := ce.vals[v.id]; !ok {
+					hit = false
+					break
+				}
+			}
+		}
+		if hit {
+			in.h.CacheHits++
+			var vals map[int]uint64
+			if ce.r == Sat {
+				vals = make(map[int]uint64, len(ce.vals))
+				for k, v := range ce.vals {
+					vals[k] = v
+				}
+				if sliced {
+					for _, v := range in.vars {
+						if _, ok := vals[v.id]; !ok {
+							vals[v.id] = in.model[v.name]
+						}
+					}
+				}
+			}
+			return ce.r, vals
+		}
+	}
 	r, vals, msg := in.solver.Check(as, want)
+	if r == Sat || r == Unsat {
+		cv := map[int]uint64{}
+		for k, v := range vals {
+			cv[k] = v
+		}
+		if len(in.qcache) < 200000 {
+			in.qcache[key] = &qcEntry{r: r, vals: cv}
+		}
+	}
 	if r == SolverError {
 		in.h.Inconclusive = append(in.h.Inconclusive, "solver error: "+msg)
 		// restart solver
